@@ -28,7 +28,7 @@ import zlib
 
 from . import common, collectlib
 
-BOUNDS = {'quick': dict(n=3, limit=15000), 'thorough': dict(n=4, limit=250000)}
+BOUNDS = {'quick': dict(n=3, limit=15000), 'thorough': dict(n=3, limit=None, core=4, corelimit=250000)}
 STYLES = ('freeform', 'google', 'auto')
 
 
@@ -115,7 +115,10 @@ def run(tier):
     b = BOUNDS[tier]
     out.rule = ('every module of <= %d items (nesting depth <= 2) over C07_Items (58 item kinds) x 3 module docstrings in Collect.tla, replayed under '
                 'the three styles (sampled where stated)' % b['n'])
-    collectlib.run_space(out, 'C07_Items<=%d' % b['n'], 'C07_Items', 'C07_ModDocs', b['n'], _one, sig, limit=b['limit'])
+    collectlib.run_space(out, 'C07_Items<=%d' % b['n'], 'C07_Items', 'C07_ModDocs', b['n'], _one, sig, limit=b['limit'], timeout=3600)
+    if b.get('core'):
+        # longer modules over a core alphabet (23 item kinds)
+        collectlib.run_space(out, 'C07_Core<=%d' % b['core'], 'C07_Core', 'C07_ModDocs', b['core'], _one, sig, limit=b['corelimit'], timeout=5400)
     # freeform layouts in which a word in front of a group of prompt lines (Benchmark:, Script:, ...) switches that group off
     collectlib.run_space(out, 'C07 skip words', 'C07_HdrItems', 'C07_HdrModDocs', 2, _one, sig, limit=b['limit'], fillers='C07_HdrFill', maxdepth=1)
     collectlib.deviation_must_fail(out, 'C07_HdrItems', 'C07_HdrModDocs', 1, 'SkipWordSticks', fillers='C07_HdrFill')
